@@ -1,5 +1,6 @@
 import ScnVerif.Model.Proto
 import ScnVerif.Model.Cascade
+import ScnVerif.Model.CascadeTyped
 /-!
 driver ops for C11 (all numbers are binary64 bit patterns in hex, counts in decimal)
 
@@ -11,6 +12,10 @@ driver ops for C11 (all numbers are binary64 bit patterns in hex, counts in deci
          `T <d>`                                           seq = seq.propagate_to(d)
          `Q <d>`                                           record seq[d]
   → `ok|err:<kind>:<op index>` then `Q …` records, then every frame of the final sequence as `F …`
+* `c11.tchop`, `c11.tprop`, `c11.trun`: the same on typed operands. A typed number is a dtype letter
+  (`d` float64, `s` float32, `l` int64, `i` int32) followed by the binary64 bit pattern of its value;
+  `c11.tchop` answers `err:dtype` when `sc.concat` would reject the output; in `c11.trun` every chopper
+  carries a flag `1|0` (its times are / are not in seconds) after its distance.
     frame  := dist nsub (nv (t w)^nv)^nsub  (`B` t0 t1 w0 w1 | `BE`)  (`S` n (t0 t1 w0 w1)^n | `SE` kind)
 -/
 namespace ScnVerif.Driver.C11
@@ -34,7 +39,7 @@ def vtx : P (Vtx Float) := do let t ← num; let w ← num; pure (t, w)
 
 def errStr : Err → String
   | .value => "value" | .notimpl => "notimpl" | .empty => "value"
-  | .attribute => "attribute" | .index => "index"
+  | .attribute => "attribute" | .index => "index" | .dtype => "dtype" | .unit => "unit"
 
 def polyStr (p : Poly Float) : String :=
   " ".intercalate (p.map (fun v => f64Hex v.1 ++ " " ++ f64Hex v.2))
@@ -93,6 +98,111 @@ def runOps (k : Consts Float) : List Op → Nat → St → St
         | .error e => "QE " ++ errStr e
       runOps k os (i + 1) { st with qs := st.qs ++ [q] }
 
+
+/-! ### typed operands -/
+
+def tnum : P TV := do
+  let t ← tok
+  let cs := t.toList
+  match cs with
+  | c :: rest =>
+    let dt? : Option DT := if c = 'd' then some .f64 else if c = 's' then some .f32
+      else if c = 'l' then some .i64 else if c = 'i' then some .i32 else none
+    match dt?, f64? (String.ofList rest) with
+    | some dt, some x => pure ⟨dt, x⟩
+    | _, _ => failure
+  | [] => failure
+
+def tStr (x : TV) : String :=
+  (match x.dt with | .f64 => "d" | .f32 => "s" | .i64 => "l" | .i32 => "i") ++ f64Hex x.v
+
+def tvtx : P (Vtx TV) := do let t ← tnum; let w ← tnum; pure (t, w)
+
+def tpolyStr (p : Poly TV) : String :=
+  " ".intercalate (p.map (fun v => tStr v.1 ++ " " ++ tStr v.2))
+
+def tquadStr (b : TV × TV × TV × TV) : String :=
+  s!"{tStr b.1} {tStr b.2.1} {tStr b.2.2.1} {tStr b.2.2.2}"
+
+def tframeStr (f : Frame TV) : String :=
+  let subs := f.subframes.map (fun p => s!"{p.length} {tpolyStr p}")
+  let b := match f.bounds with
+    | .ok b => "B " ++ tquadStr b
+    | .error _ => "BE"
+  let s := match f.subbounds with
+    | .ok l => s!"S {l.length}" ++ String.join (l.map (fun q => " " ++ tquadStr q))
+    | .error e => "SE " ++ errStr e
+  let head := s!"{tStr f.dist} {f.subframes.length}"
+  " ".intercalate (([head] ++ subs ++ [b, s]).filter (· ≠ ""))
+
+inductive TOp where
+  | chop (cs : List (Chopper TV × Bool))
+  | prop (d : TV)
+  | get (d : TV)
+
+def tchopper : P (Chopper TV × Bool) := do
+  let d ← tnum; let u ← tok; let n ← nat
+  let ws ← rep n (do let o ← tnum; let c ← tnum; pure (o, c))
+  pure (⟨d, ws⟩, u = "1")
+
+def top : P TOp := do
+  let t ← tok
+  if t = "C" then do let n ← nat; let cs ← rep n tchopper; pure (.chop cs)
+  else if t = "T" then do let d ← tnum; pure (.prop d)
+  else if t = "Q" then do let d ← tnum; pure (.get d)
+  else failure
+
+structure TSt where
+  frames : List (Frame TV)
+  qs : List String := []
+  status : String := "ok"
+
+/-- a chopper is identified by position in the list given to this `chop` call: the flag travels
+with the chopper through the sort because it is looked up by (distance, windows) identity -/
+def timesOkOf (cs : List (Chopper TV × Bool)) (c : Chopper TV) : Bool :=
+  match cs.find? (fun e => e.1.dist.v == c.dist.v && e.1.dist.dt == c.dist.dt &&
+      e.1.windows.length == c.windows.length &&
+      (e.1.windows.zip c.windows).all (fun p => p.1.1.v == p.2.1.v && p.1.2.v == p.2.2.v)) with
+  | some e => e.2
+  | none => true
+
+def trunOps (k : Consts TV) : List TOp → Nat → TSt → TSt
+  | [], _, st => st
+  | o :: os, i, st =>
+    match o with
+    | .chop cs =>
+      match seqChopH (hooksTV (timesOkOf cs)) k st.frames (cs.map (·.1)) with
+      | .ok fr => trunOps k os (i + 1) { st with frames := fr }
+      | .error e => { st with status := s!"err:{errStr e}:{i}" }
+    | .prop d =>
+      match seqPropagateToH (hooksTV (fun _ => true)) k st.frames d with
+      | .ok fr => trunOps k os (i + 1) { st with frames := fr }
+      | .error e => { st with status := s!"err:{errStr e}:{i}" }
+    | .get d =>
+      let q := match seqGetItemH (hooksTV (fun _ => true)) k st.frames d with
+        | .ok f => "Q " ++ tframeStr f
+        | .error e => "QE " ++ errStr e
+      trunOps k os (i + 1) { st with qs := st.qs ++ [q] }
+
+def handleT : List String → Option String
+  | "c11.tchop" :: dir :: rest =>
+      (do let c ← tnum; let vs ← many tvtx
+          pure (match chopStepH (hooksTV (fun _ => true)) c (dir = "1") vs with
+            | .error e => "err:" ++ errStr e
+            | .ok none => "none"
+            | .ok (some p) => tpolyStr p) : P String).run' rest
+  | "c11.tprop" :: rest =>
+      (do let mn ← tnum; let h ← tnum; let s ← tnum; let d ← tnum; let vs ← many tvtx
+          pure (" ".intercalate (vs.map (fun v =>
+            tStr (propagateTimesH (hooksTV (fun _ => true)) ⟨mn, h, s⟩ v.1 v.2 d)))) : P String).run' rest
+  | "c11.trun" :: rest =>
+      (do let mn ← tnum; let h ← tnum; let s ← tnum
+          let tmin ← tnum; let tmax ← tnum; let wmin ← tnum; let wmax ← tnum
+          let ops ← many top
+          let st := trunOps ⟨mn, h, s⟩ ops 0 { frames := [fromSourcePulse ⟨.i64, 0⟩ tmin tmax wmin wmax] }
+          pure (" ".intercalate ([st.status] ++ st.qs ++ st.frames.map (fun f => "F " ++ tframeStr f))) : P String).run' rest
+  | _ => none
+
 def handle : List String → Option String
   | "c11.chop" :: dir :: rest =>
       (do let c ← num; let vs ← many vtx
@@ -112,6 +222,6 @@ def handle : List String → Option String
           let ops ← many op
           let st := runOps ⟨mn, h, s⟩ ops 0 { frames := [fromSourcePulse zero tmin tmax wmin wmax] }
           pure (" ".intercalate ([st.status] ++ st.qs ++ st.frames.map (fun f => "F " ++ frameStr f))) : P String).run' rest
-  | _ => none
+  | ws => handleT ws
 
 end ScnVerif.Driver.C11
